@@ -75,6 +75,8 @@ def templates(cls):
     t["create"] = lambda N: q([["create_table", [["py", N[0]]]], ["columns", [["py", N[1]], ["pytuple", [["py", N[2]], ["py", "INT"]]], ["column", N[3], "INT", True, ["raw", 5]]]],
                                ["unique", [["py", N[1]], ["py", N[2]]]], ["primary_key", [["py", N[3]]]], ["period_for", [["py", N[4]], ["py", N[1]], ["py", N[2]]]]], {})
     t["create_make_columns"] = lambda N: q([["create_table", [["py", N[0]]]], ["columns", [["mkcols", [["py", N[1]], ["pytuple", [["py", N[2]], ["py", "INT"]]], ["py", N[3]]]]]]], {})
+    t["insert_columns_list"] = lambda N: q([["into", [["src", "A"]]], ["columns", [["pylist", [["py", N[1]], ["py", N[2]]]]]], ["insert", [["raw", 1], ["raw", 2]]]], {"A": T(N[0])})
+    t["function_schema"] = lambda N: q([["from_", [["src", "A"]]], ["select", [["as", ["cfn", "fnx", [["col", "A", N[1]]], {"schema": N[2]}], N[3]]]]], {"A": T(N[0])})
     t["create_table_obj"] = lambda N: q([["create_table", [["src", "A"]]], ["columns", [["py", N[2]]]], ["if_not_exists", []]], {"A": T(N[0], N[1])})
     t["create_as_select"] = lambda N: q([["create_table", [["py", N[0]]]], ["as_select", [["q", sub(N)]]]], {})
     t["drop"] = lambda N: q([["drop_table", [["src", "A"]]], ["if_exists", []]], {"A": T(N[0], N[1])})
